@@ -405,7 +405,9 @@ Top:
 	return &n
 }
 
-var spaces = []byte{'\n'}
+// spaces is a newline followed by spaces. It is shared by all printers and go
+// routines so it must never be modified after initialization.
+var spaces = append([]byte{'\n'}, bytes.Repeat([]byte{' '}, 255)...)
 
 func (p *Printer) appendTree(b []byte, n *node, offset, closes int) []byte {
 	if 0 < len(n.special) {
@@ -429,8 +431,12 @@ func (p *Printer) appendTree(b []byte, n *node, offset, closes int) []byte {
 		if off+n.elements[0].size+n.elements[1].size+t+1 <= int(p.RightMargin) {
 			off += n.elements[0].size + 1
 		}
+		spaces := spaces
 		if len(spaces)-1 < off {
-			spaces = append(spaces, bytes.Repeat([]byte{' '}, off-len(spaces)+1)...)
+			// Deeper than the shared buffer, use a local one instead of
+			// growing the shared buffer which is not safe with multiple go
+			// routines printing at the same time.
+			spaces = append([]byte{'\n'}, bytes.Repeat([]byte{' '}, off)...)
 		}
 		pos := offset + 1
 		for i, e := range n.elements {
